@@ -478,6 +478,40 @@ def execute(prop, scen):
                     except Exception as e:  # noqa
                         v("unknown_param_wrong_error", "unknown nested parameter raised %s instead of "
                           "ValueError" % type(e).__name__, exc=type(e).__name__, nested=True)
+            elif op == "set_nested" and not comp and not fitted:
+                # estimator-valued parameters (Detrender(forecaster=), tuner(forecaster=),
+                # reductions(estimator=), adaptors, ...): <param>__<sub> reads and writes the
+                # sub-estimator's parameter
+                cands = [(k_, x) for k_, x in est.get_params(deep=False).items()
+                         if hasattr(x, "get_params") and not isinstance(x, type)]
+                if not cands:
+                    continue
+                k_, sub = cands[rng.randrange(len(cands))]
+                try:
+                    subp = {a_: b_ for a_, b_ in sub.get_params(deep=False).items() if a_ in SMALL
+                            and not isinstance(b_, bool)}
+                except Exception:
+                    continue
+                deep = est.get_params(deep=True)
+                for a_ in sub.get_params(deep=False):
+                    if "%s__%s" % (k_, a_) not in deep:
+                        v("nested_param_missing", "get_params(deep=True) lacks %s__%s" % (k_, a_), depth=1)
+                        break
+                if res.violations or not subp:
+                    continue
+                a_ = sorted(subp)[rng.randrange(len(subp))]
+                new = rng.choice(SMALL[a_])
+                try:
+                    est.set_params(**{"%s__%s" % (k_, a_): new})
+                except Exception as e:  # noqa
+                    v("nested_set_raised", "set_params(%s__%s=%r) raised %s: %s" % (
+                        k_, a_, new, type(e).__name__, str(e)[:100]))
+                    break
+                res.probe("nested_param_set")
+                if getattr(getattr(est, k_), a_) != new or est.get_params()["%s__%s" % (k_, a_)] != new:
+                    v("nested_param_not_written", "after set_params(%s__%s=%r) the sub-estimator holds %r"
+                      % (k_, a_, new, getattr(getattr(est, k_), a_)))
+                res.nontrivial = True
             elif op in ("set_nested", "replace_component", "set_ordered"):
                 if not comp or fitted or comp in ("estimators", "transformers"):
                     continue
